@@ -187,7 +187,9 @@ PROPS["C01"]["assumptions"] = PROPS["C01"]["assumptions"] + ["poollin stage: per
 PROPS["C02"]["stages"].append(stress_stage({"C02": ["C02.stress-quiescent-zero", "stress.placed"]}))
 PROPS["C03"]["stages"].append(stress_stage({"C03": ["C03.toctou-grow", "C03.stress-max"]}))
 PROPS["C09"]["stages"].append(stress_stage({"C09": ["C09.stress-exact", "C09.stress-bind-picks"]}))
-for _p in ("C02", "C03", "C09"):
+PROPS["C05"]["stages"].append(dict(stress_stage({"C05": ["C05.stress-no-crash", "stress.placed"]}), crash_props=["C05"]))
+PROPS["C06"]["stages"].append(stress_stage({"C06": ["C06.stress-finished", "stress.placed"]}))
+for _p in ("C02", "C03", "C05", "C06", "C09"):
     PROPS[_p]["assumptions"] = PROPS[_p]["assumptions"] + ["poolstress stage: real goroutines (1 serialized callback goroutine, 12 pick goroutines, 5 completer goroutines), yield-site schedule perturbation; invariants are read at quiescence / under the balancer's own lock"]
     PROPS[_p]["rule"] += "; poolstress stage: concurrent executions (distinct = configuration and run index)"
 
